@@ -915,6 +915,10 @@ class Interp:
         k = kind(v)
         if k == 'unop' and v[1] == 'not':
             return [(s2, not b) for s2, b in self._branch_term(v[2], st)]
+        if k == 'call' and v[2] == ('builtin', 'bool') and len(v[3]) == 1 \
+                and not v[4]:
+            # the truth of bool(x) is the truth of x: one fact, not two
+            return self._branch_term(v[3][0], st)
         if k == 'boolop' and len(v[2]) >= 2:
             is_and = v[1] == 'and'
             outs = []
@@ -2604,6 +2608,16 @@ class Interp:
                         *[v for _, v in oks])), None)]
                 except Exception:
                     pass
+        if kind(fn) == 'builtin' and fn[1] == 'isinstance' and \
+                len(args) == 2 and not kwargs and is_const(args[0]):
+            # isinstance(<constant>, <builtin type or tuple of them>)
+            ts = [args[1]] if kind(args[1]) == 'builtin' else (
+                list(args[1][1]) if kind(args[1]) == 'tuple' else [])
+            import builtins as _b
+            tys = [getattr(_b, t[1], None) if kind(t) == 'builtin' else None
+                   for t in ts]
+            if ts and all(isinstance(t, type) for t in tys):
+                return [(st, C(isinstance(args[0][1], tuple(tys))), None)]
         if kind(fn) == 'builtin' and fn[1] in _PURE_PREDICATES:
             # pure: two evaluations with equal arguments are the same value
             site = None
